@@ -325,6 +325,12 @@ class SciPyStubs:
             if not bool(Sym.lift(a_) <= Sym.lift(b_)):
                 raise ValueError("Error on input data")
         self.rec.append(("splrep", {"x": x, "y": y, "s": s, "k": k, "w": w, "t": t, "per": per}))
+        if s is None:
+            if w is not None:
+                raise HarnessError("splrep with weights and default s (m - sqrt(2m)) not modelled")
+            s = 0          # documented default: s = 0.0 (interpolating) if no weights are supplied
+        if w is not None or t is not None or per:
+            raise HarnessError("splrep(w/t/per) not modelled")
         return ("tck", xs, ys, s, k)
 
     def BSpline(self, *tck, **kw):
